@@ -7,12 +7,24 @@
 EXTENDS MC_TxAssembly, TLC, Json, SequencesExt
 
 Result(i) ==
-    CASE i.kind = "sweep"           -> SweepResult(i)
-      [] i.kind = "redemption"      -> RedemptionResult(i)
-      [] i.kind = "movingFunds"     -> MovingFundsResult(i)
-      [] i.kind = "movedFundsSweep" -> MovedFundsSweepResult(i)
+    CASE i.kind = "sweep"              -> SweepResult(i)
+      [] i.kind = "redemption"         -> RedemptionResult(i)
+      [] i.kind = "movingFunds"        -> MovingFundsResult(i)
+      [] i.kind = "movedFundsSweep"    -> MovedFundsSweepResult(i)
+      [] i.kind = "sweepProposal"      -> SweepProposalResult(i)
+      [] i.kind = "redemptionProposal" -> RedemptionProposalResult(i)
 
-Cases == { [in |-> i, expected |-> Result(i)] : i \in Inputs }
+\* JSON-friendly rendering of a scenario (functions over tuples become lists of records)
+Render(i) ==
+    IF i.kind = "sweepProposal" THEN
+        [kind |-> i.kind, main |-> i.main, fee |-> i.fee, wrongAt |-> i.wrongAt, txs |-> i.txs,
+         keys |-> [n \in 1..Len(i.keys) |-> [tx |-> i.keys[n][1], idx |-> i.keys[n][2], block |-> ClaimedBlock(i, n),
+                                              value |-> PropValue(i.keys[n])]],
+         deposits |-> SetToSeq({ [tx |-> o[1], idx |-> o[2], state |-> i.dep[o], block |-> TrueBlock(i.dep[o]),
+                                  value |-> PropValue(o)] : o \in PropOutputs })]
+    ELSE i
+
+Cases == { [in |-> Render(i), expected |-> Result(i)] : i \in Inputs \cup ProposalInputs }
 
 GInit == /\ in = [kind |-> "generation"] /\ res = Pending /\ done = TRUE
 GNext == FALSE /\ UNCHANGED vars
